@@ -57,7 +57,6 @@ def run(ctx):
 
     # ---- proofs ----
     pr_hand = ctx.prove("C19.v")
-    ob, dis = ctx.obligations, ctx.discharged
     proof_ok = pr_hand["ok"]
     assumptions = list(pr_hand["assumptions"])
     broken = []
@@ -65,8 +64,6 @@ def run(ctx):
         broken.append(("Properties/C19.v (hand model)", pr_hand["log"]))
     if gen["ok"]:
         pr_gen = ctx.prove("C19gen.v")
-        ob, dis = max(ob, ctx.obligations), (ctx.discharged if pr_gen["ok"] else min(dis, ctx.discharged))
-        ctx.obligations, ctx.discharged = max(ob, ctx.obligations), dis
         assumptions += pr_gen["assumptions"]
         if not pr_gen["ok"]:
             proof_ok = False
